@@ -3,6 +3,8 @@ mod gen;
 mod num;
 mod props;
 mod session;
+#[path = "shared_mod.rs"]
+mod shared;
 mod term;
 
 use engine::{ShardCfg, Tier};
@@ -15,7 +17,7 @@ fn arg_val(args: &[String], name: &str) -> Option<String> {
 fn main() {
     let args: Vec<String> = std::env::args().collect();
     if args.len() < 2 {
-        eprintln!("usage: vcheck run <ID> --tier quick|thorough | replay <ID> <file> | worker ... | list");
+        eprintln!("usage: vcheck run <ID> --tier quick|thorough | replay <ID> <file> | worker ... | list | q <goal> <template> [libs]");
         std::process::exit(2);
     }
     session::install_quiet_panic_hook();
@@ -35,14 +37,21 @@ fn main() {
         println!("{}", o.short());
         return;
     }
-    if cmd == "child" {
-        std::process::exit(props::child_main(&args[2..]));
-    }
     let id = args.get(2).cloned().unwrap_or_default();
     let Some(prop) = props::all().into_iter().find(|p| p.id() == id) else {
         eprintln!("unknown property {id}");
         std::process::exit(2);
     };
+    if cmd == "child" {
+        // vcheck child <ID> <mode> <input.json>: single-case child process (main thread, default stack)
+        let mode = args.get(3).cloned().unwrap_or_default();
+        let input: serde_json::Value = args
+            .get(4)
+            .and_then(|p| std::fs::read_to_string(p).ok())
+            .and_then(|s| serde_json::from_str(&s).ok())
+            .unwrap_or(serde_json::Value::Null);
+        std::process::exit(prop.child(&mode, &input));
+    }
     let tier = match arg_val(&args, "--tier").as_deref() {
         Some("thorough") => Tier::Thorough,
         _ => Tier::Quick,
